@@ -68,10 +68,33 @@ def coq_str(s):
 
 
 # --------------------------------------------------------------------------- gate
-def grep_gate():
-    """no declared axioms, no admitted proofs, no disabled checks anywhere in the development"""
+def cone(prop):
+    """files of the development that Properties/<prop>.v depends on (transitively), by its Require lines"""
+    todo, seen = [os.path.join("Properties", prop + ".v")], []
+    while todo:
+        rel = todo.pop()
+        if rel in seen or not os.path.exists(os.path.join(COQ, rel)):
+            continue
+        seen.append(rel)
+        text = open(os.path.join(COQ, rel)).read()
+        for m in re.finditer(r"From\s+SX\s+Require\s+(?:Import\s+|Export\s+)?(.*?)\.(?:\s|$)", text, flags=re.S):
+            for name in m.group(1).split():
+                todo.append(name.replace(".", "/") + ".v")
+        for m in re.finditer(r"(?<!SX\s)Require\s+(?:Import\s+|Export\s+)?((?:SX\.[\w.]+\s*)+)\.(?:\s|$)", text):
+            for name in m.group(1).split():
+                todo.append(name[3:].replace(".", "/") + ".v")
+    return seen
+
+
+def grep_gate(prop=None):
+    """no declared axioms, no admitted proofs, no disabled checks in the development the property depends on
+    (the whole development when prop is None)"""
     bad = []
-    for path in sorted(glob.glob(os.path.join(COQ, "**", "*.v"), recursive=True)):
+    if prop is None:
+        paths = sorted(glob.glob(os.path.join(COQ, "**", "*.v"), recursive=True))
+    else:
+        paths = [os.path.join(COQ, r) for r in cone(prop)]
+    for path in paths:
         depth = 0
         with open(path) as f:
             text = f.read()
